@@ -53,6 +53,7 @@ pub fn generate(prop: &str, tier: &str, seed: u64, outdir: &str) {
         "C01" | "C03" | "C05" | "C08" => gen_hist_prop(prop, &mut out, &mut rng, thorough),
         "C12" => gen_c12(&mut out, &mut rng, thorough),
         "C16" => gen_c16(&mut out, &mut rng, thorough),
+        "C09" => gen_c09(&mut out, &mut rng, thorough),
         "C15" => {
             let scripts: Vec<usize> = if thorough { (0..crate::faults::NUM_SCRIPTS).collect() } else { vec![0, 1, 2, 4, 5] };
             for n in scripts {
@@ -1356,5 +1357,181 @@ fn gen_stream_sessions(out: &mut Out, rng: &mut Rng, thorough: bool) {
         out.req("snapshot", "snapshot".into());
         out.req("reopen", format!("reopen {}", rng.pick(&crate::hist::CLOSE_MODES)));
         out.req("snapshot", "snapshot".into());
+    }
+}
+
+// ------------------------------------------------------------------------------------
+// C09: structure-aware corruptions of valid packages
+
+fn entries_tok(entries: &[(String, Vec<u8>)]) -> String {
+    if entries.is_empty() {
+        return "-".into();
+    }
+    entries.iter().map(|(n, d)| format!("{}={}", hex_of_str(n), hex_of_bytes(d))).collect::<Vec<_>>().join(";")
+}
+
+/// valid base containers: one written by the library, two by the independent encoder
+/// (three-byte references; no _Validation table)
+pub fn c09_bases() -> Vec<Vec<(String, Vec<u8>)>> {
+    use crate::decode::*;
+    let mut bases = vec![];
+    // (a) written by the library
+    {
+        let m = crate::session::Medium::new(Vec::new());
+        let mut pkg = msi::Package::create(msi::PackageType::Installer, m.clone()).unwrap();
+        pkg.create_table(
+            "Items",
+            vec![
+                msi::Column::build("Id").primary_key().int16(),
+                msi::Column::build("Name").nullable().category(msi::Category::Text).string(32),
+                msi::Column::build("Big").nullable().range(0, 100000).int32(),
+            ],
+        )
+        .unwrap();
+        pkg.insert_rows(
+            msi::Insert::into("Items")
+                .row(vec![msi::Value::Int(1), msi::Value::from("one"), msi::Value::Int(70000)])
+                .row(vec![msi::Value::Int(2), msi::Value::Null, msi::Value::Null])
+                .row(vec![msi::Value::Int(3), msi::Value::from("one"), msi::Value::Int(5)]),
+        )
+        .unwrap();
+        pkg.summary_info_mut().set_author("Jane");
+        pkg.flush().unwrap();
+        drop(pkg);
+        bases.push(crate::session::raw_streams(&m.snapshot_bytes()).unwrap());
+    }
+    let summary = bases[0].iter().find(|(n, _)| n.starts_with('\u{5}')).unwrap().clone();
+    for long in [false, true] {
+        let mut k = ColDef::new("K", CT::Str(8));
+        k.key = true;
+        let mut v = ColDef::new("V", CT::I16);
+        v.nullable = true;
+        let t = EncTable {
+            name: "T".into(),
+            cols: vec![k, v],
+            rows: vec![vec![V::Str("a".into()), V::Int(1)], vec![V::Str("b".into()), V::Null]],
+        };
+        let layout = EncLayout {
+            long_refs: long, cp_id: 65001, filler: vec![("unused".into(), 0)], overcount: 0, duplicate: false,
+            with_validation: !long, reverse_rows: false, int16_size: 2,
+        };
+        let mut e = encode_db(&layout, &[t]);
+        e.push(summary.clone());
+        bases.push(e);
+    }
+    bases
+}
+
+fn corrupt(rng: &mut Rng, base: &[(String, Vec<u8>)]) -> (Vec<(String, Vec<u8>)>, &'static str) {
+    let mut e: Vec<(String, Vec<u8>)> = base.to_vec();
+    let i = rng.below(e.len() as u64) as usize;
+    let is_summary = e[i].0.starts_with('\u{5}');
+    let words = [0u16, 1, 2, 0xffff, 0x8000, 0x7fff, 0x8001, 0x0800, 0x2800, 0x3fff, 0x00ff, 300];
+    match rng.below(10) {
+        0 => {
+            e.remove(i);
+            (e, "stream_missing")
+        }
+        1 => {
+            let k = 1 + rng.below(5) as usize;
+            let n = e[i].1.len();
+            e[i].1.truncate(n.saturating_sub(k));
+            (e, "truncated")
+        }
+        2 => {
+            let n = e[i].1.len();
+            e[i].1.truncate(n / 2);
+            (e, "halved")
+        }
+        3 => {
+            let k = 1 + rng.below(9) as usize;
+            let fill = *rng.pick(&[0u8, 0xff, 1, 0x80]);
+            e[i].1.extend(std::iter::repeat(fill).take(k));
+            (e, "extended")
+        }
+        4 if is_summary => {
+            // byte-level mutation of the property set (header, offsets, counts, lengths, types)
+            if !e[i].1.is_empty() {
+                let pos = rng.below(e[i].1.len().min(120) as u64) as usize;
+                e[i].1[pos] = *rng.pick(&[0u8, 1, 2, 3, 0xff, 0x1e, 0x40, 0x7f, 0x80, 16]);
+            }
+            (e, "summary_byte")
+        }
+        _ => {
+            // replace one 16-bit word: a cell (null, dangling or huge reference, out-of-range
+            // number), a pool length or reference count, a header word
+            if e[i].1.len() >= 2 {
+                let pos = 2 * rng.below((e[i].1.len() / 2) as u64) as usize;
+                let w = if rng.chance(1, 6) { rng.below(65536) as u16 } else { *rng.pick(&words) };
+                e[i].1[pos] = w as u8;
+                e[i].1[pos + 1] = (w >> 8) as u8;
+            }
+            (e, "word_replaced")
+        }
+    }
+}
+
+fn gen_c09(out: &mut Out, rng: &mut Rng, thorough: bool) {
+    let bases = c09_bases();
+    let battery = |out: &mut Out, tables: &[&str]| {
+        out.req("battery", "snapshot".into());
+        out.req("battery", "streams".into());
+        for t in tables {
+            out.req("battery", format!("select SEL 0 - T {}", hex_of_str(t)));
+        }
+        out.req("battery", format!("select SEL 0 - IJ SEL 0 - T {} SEL 0 - T {} I1", hex_of_str(tables[0]), hex_of_str("_Columns")));
+        out.req("battery", format!("insert {} 1 3 I9 S6e6577 I7", hex_of_str("Items")));
+        out.req("battery", format!("insert {} 1 2 S7a I9", hex_of_str("T")));
+        out.req("battery", format!("update {} 1 {} S7570 -", hex_of_str("Items"), hex_of_str("Name")));
+        out.req("battery", format!("update {} 1 {} I3 -", hex_of_str("T"), hex_of_str("V")));
+        out.req("battery", format!("delete {} gt C{} I1", hex_of_str("Items"), hex_of_str("Id")));
+        out.req("battery", format!("delete {} -", hex_of_str("T")));
+        out.req("battery", format!("create_table {} 4b:i16:K:-:-:-:-", hex_of_str("Fresh")));
+        out.req("battery", format!("drop_table {}", hex_of_str(tables[0])));
+        out.req("battery", "sum_set author 4a".into());
+        out.req("battery", format!("stream_write {} 0102", hex_of_str("s")));
+        out.req("battery", "flush".into());
+        out.req("battery", "snapshot".into());
+        out.req("battery", "reopen into_inner".into());
+        out.req("battery", "snapshot".into());
+    };
+    // the uncorrupted bases first
+    for b in &bases {
+        out.req("load_valid", format!("load 0 {}", entries_tok(b)));
+        battery(out, &["Items", "T", "_Validation"]);
+    }
+    out.req("wrong_clsid", format!("load none {}", entries_tok(&bases[0])));
+    out.req("battery", "snapshot".into());
+    let n = if thorough { 60_000 } else { 1_200 };
+    for _ in 0..n {
+        let b = rng.pick(&bases);
+        let (e, kind) = corrupt(rng, b);
+        out.req(kind, format!("load {} {}", rng.below(3), entries_tok(&e)));
+        battery(out, &["Items", "T", "_Validation"]);
+    }
+    // arbitrary bytes (and byte-level damage to whole files) straight into Package::open
+    let whole = crate::session::build_container(Some(0), &bases[0]).unwrap();
+    let m = if thorough { 40_000 } else { 1_500 };
+    for i in 0..m {
+        let mut f = whole.clone();
+        match i % 5 {
+            0 => {
+                let len = rng.below(600) as usize;
+                f = (0..len).map(|_| rng.below(256) as u8).collect();
+            }
+            1 => {
+                let n = rng.below(f.len() as u64) as usize;
+                f.truncate(n);
+            }
+            _ => {
+                let k = 1 + rng.below(4);
+                for _ in 0..k {
+                    let region = if rng.chance(1, 2) { 512.min(f.len()) } else { f.len() };
+                    let pos = rng.below(region as u64) as usize;
+                    f[pos] = *rng.pick(&[0u8, 0xff, 0xfe, 1, 2, 0x80, 0x10]);
+                }
+            }
+        }
+        out.req("raw_bytes", format!("@open_bytes {}", hex_of_bytes(&f)));
     }
 }
